@@ -320,3 +320,115 @@ def refute_search(mod, proof, violations, ix, workdir, seed):
 
 
 refuters = {p.name: refute_search for p in proofs}
+
+
+# ---------------------------------------------------------------------------------------------
+# The capacity rule and the shape of Set / Delete for ANY number of members (unbounded): TraceState::Set and Delete over an abstract
+# KeyValueProperties (Size / GetValue / AddEntry / GetAllEntries as ghost-recorded boundary calls; the walk over the old members is one callback
+# invocation on an arbitrary member = inductive step). "at most 32 members; a key not yet present is refused with an unchanged copy when the list
+# already holds 32 members; Set places the given key first; never a second member with the same key; Delete removes exactly the given key".
+CAP_PRE = r"""
+size_t g_k;
+unsigned long g_n; int g_exists, g_vk, g_vv, g_same;     /* members held, key present, key valid, value valid, the walked member has the given key */
+unsigned long g_alloc_calls, g_alloc_size, g_add_calls, g_first_add_is_new, g_walk_calls, g_cb_calls, g_copied, g_default_calls;
+const char *g_add_key, *g_add_val; const char *g_new_key, *g_new_val;
+static void xc_havoc_ghosts(void) { size_t a; unsigned long n; int e, k, v, s; g_k = a; g_n = n; g_exists = e; g_vk = k; g_vv = v; g_same = s;
+  g_alloc_calls = g_alloc_size = g_add_calls = g_first_add_is_new = g_walk_calls = g_cb_calls = g_copied = g_default_calls = 0; g_add_key = g_add_val = 0; const char *p, *q; g_new_key = p; g_new_val = q; }
+typedef struct xc_kvp { char xc_unused; } xc_kvp;
+#define CAP_GHOSTS g_alloc_calls, g_alloc_size, g_add_calls, g_first_add_is_new, g_walk_calls, g_cb_calls, g_copied, g_default_calls, g_add_key, g_add_val
+#define MAXKV 32UL
+"""
+CAP_POST = r"""
+static char g_e_key_buf[4], g_e_val_buf[4]; string_view g_e_key, g_e_val;       /* the member the walk delivers */
+static TraceState xc_o_new_ts, xc_o_default_ts; static xc_kvp xc_o_old_kv, xc_o_new_kv;
+static unsigned long xc_kv_Size(const xc_kvp *p) { return g_n; }
+static bool xc_kv_GetValue(const xc_kvp *p, string_view key) { return g_exists != 0; }
+static void xc_kv_AddEntry(xc_kvp *p, string_view k, string_view v) { if (g_add_calls == 0 && k.data_ == g_new_key && v.data_ == g_new_val) g_first_add_is_new = 1; g_add_calls++; g_add_key = k.data_; g_add_val = v.data_; }
+static TraceState *xc_new_TraceState(unsigned long size) { g_alloc_calls++; g_alloc_size = size; xc_o_new_ts.kv_properties_ = &xc_o_new_kv; return &xc_o_new_ts; }
+static TraceState *xc_TraceState_GetDefault_ptr(void) { g_default_calls++; return &xc_o_default_ts; }
+static bool xc_IsValidKey(string_view k) { return g_vk != 0; }
+static bool xc_IsValidValue(string_view v) { return g_vv != 0; }
+/* string_view == / != between the given key and the walked member's key */
+static bool xc_key_ne(string_view a, string_view b) { return !g_same; }
+"""
+
+
+def _cap_types(em, base, targs, name):
+    if base in ("nostd::unique_ptr", "unique_ptr") and targs and targs[0].strip().endswith("KeyValueProperties"):
+        return common.CT("xc_kvp", 1)
+    if base in ("nostd::shared_ptr", "shared_ptr") and targs and targs[0].strip().split("::")[-1] == "TraceState":
+        inner = em._ctype(targs[0])
+        return common.CT(inner.base, inner.ptr + 1)
+    return None
+
+
+def _cap_walk(em, node, recv, args):
+    lam = em._find_lambda(args[0])
+    if lam is None:
+        raise common.ExtractionError("GetAllEntries without a lambda argument")
+    li = em.lambda_info(lam, None)
+    caps = [em.capture_arg(c) for c in li["captures"]]
+    em.report["KeyValueProperties::GetAllEntries(callback) -> one callback invocation on an arbitrary member (inductive step)"] += 1
+    return "(g_walk_calls++, g_cb_calls++, %s(%s))" % (li["cname"], ", ".join(caps + ["g_e_key", "g_e_val"]))
+
+
+def _configure_cap(cfg):
+    cfg.value_classes |= {"string_view"}
+    cfg.type_handlers.insert(0, _cap_types)
+    unp = lambda r: (r["node"] if isinstance(r, dict) and r.get("xc_is_ptr") else r)
+    K = "KeyValueProperties::"
+    cfg.ext_q[K + "Size"] = lambda em, node, recv, args: "xc_kv_Size(%s)" % em.expr(unp(recv))
+    cfg.ext_q[K + "GetValue"] = lambda em, node, recv, args: "xc_kv_GetValue(%s, %s)" % (em.expr(unp(recv)), em.expr(args[0]))
+    cfg.ext_q[K + "AddEntry"] = lambda em, node, recv, args: "xc_kv_AddEntry(%s, %s, %s)" % (em.expr(unp(recv)), em.expr(args[0]), em.expr(args[1]))
+    cfg.ext_q[K + "GetAllEntries"] = _cap_walk
+    cfg.ext_q["TraceState::GetDefault"] = lambda em, node, recv, args: "xc_TraceState_GetDefault_ptr()"
+    cfg.ext_q["TraceState::IsValidKey"] = lambda em, node, recv, args: "xc_IsValidKey(%s)" % em.expr(args[0])
+    cfg.ext_q["TraceState::IsValidValue"] = lambda em, node, recv, args: "xc_IsValidValue(%s)" % em.expr(args[0])
+    cfg.ext_q["nostd::operator!="] = lambda em, node, recv, args: "xc_key_ne(%s, %s)" % (em.expr(args[0]), em.expr(args[1]))
+    cfg.ext_q["nostd::operator=="] = lambda em, node, recv, args: "(!xc_key_ne(%s, %s))" % (em.expr(args[0]), em.expr(args[1]))
+    cfg.ext_q["unique_ptr<common::KeyValueProperties>::operator->"] = lambda em, node, recv, args: em.expr(unp(recv))
+    cfg.ext_q["shared_ptr<trace::TraceState>::operator->"] = lambda em, node, recv, args: em.expr(unp(recv))
+    cfg.ctor_ext["nostd::shared_ptr"] = lambda em, node, args: (em.expr(args[0]) if args else "NULL")
+    cfg.ext["new"] = lambda em, n: "xc_new_TraceState(%s)" % em.expr([c for c in n.get("inner", []) if c.get("kind") == "CXXConstructExpr"][-1]["inner"][0])
+    for n in ("std::basic_string", "std::__cxx11::basic_string"):
+        cfg.ctor_ext[n] = lambda em, node, args: "((xc_str){\"\", 0})"
+    cfg.field_type_override = dict(getattr(cfg, "field_type_override", {}))
+
+
+CAP_REQ = ("__CPROVER_requires(__CPROVER_is_fresh(self, sizeof(*self)) && g_n <= MAXKV && (g_exists == 0 || g_exists == 1) && (g_exists ==> g_n >= 1) && "
+           "%s)\n")
+contracts_cap = {
+    "TraceState_Set": {"pre": CAP_REQ % "g_new_key == key.data_ && g_new_val == value.data_ && key.data_ != NULL && value.data_ != NULL && g_e_key.data_ != key.data_" +
+        "__CPROVER_assigns(CAP_GHOSTS, xc_o_new_ts)\n"
+        # an invalid key or value yields the empty default state, nothing is built
+        "__CPROVER_ensures((!g_vk || !g_vv) ==> (g_default_calls == 1 && g_alloc_calls == 0 && g_add_calls == 0))\n"
+        # capacity: the new list is allocated for the old members plus one only when the key is new AND there is room: never more than 32
+        "__CPROVER_ensures((g_vk && g_vv) ==> (g_alloc_calls == 1 && g_alloc_size <= MAXKV && g_alloc_size == g_n + ((!g_exists && g_n < MAXKV) ? 1UL : 0UL)))\n"
+        # the given key goes first with the new value - unless it is new and the list is full: then it is refused and the copy is unchanged
+        "__CPROVER_ensures((g_vk && g_vv && (g_exists || g_n < MAXKV)) ==> g_first_add_is_new == 1)\n"
+        "__CPROVER_ensures((g_vk && g_vv && !g_exists && g_n >= MAXKV) ==> (g_first_add_is_new == 0 && g_add_calls == (unsigned long)1))\n"
+        # the walk over the old members: every member is copied once, except the one carrying the key that has just been set (never a second member with the same key)
+        "__CPROVER_ensures((g_vk && g_vv) ==> (g_walk_calls == 1 && g_add_calls == ((g_exists || g_n < MAXKV) ? 1UL : 0UL) + ((!(g_exists || g_n < MAXKV) || !g_same) ? 1UL : 0UL)))\n"},
+    "TraceState_Delete": {"pre": CAP_REQ % "1" +
+        "__CPROVER_assigns(CAP_GHOSTS, xc_o_new_ts)\n"
+        "__CPROVER_ensures(!g_vk ==> (g_default_calls == 1 && g_alloc_calls == 0 && g_add_calls == 0))\n"
+        "__CPROVER_ensures(g_vk ==> (g_alloc_calls == 1 && g_alloc_size == g_n - (g_exists ? 1UL : 0UL) && g_alloc_size <= MAXKV))\n"
+        # exactly the given key is removed: a walked member is copied exactly when it does not carry the key
+        "__CPROVER_ensures(g_vk ==> (g_walk_calls == 1 && g_add_calls == (g_same ? 0UL : 1UL)))\n"},
+}
+proofs_cap = [
+    Proof("Set_capacity", [("TraceState::Set", 2)], enforce="TraceState_Set", timeout=300,
+          desc="Set for ANY number of members: allocation size <= 32, a new key on a full list is refused (unchanged copy), the key goes first, no second member with the same key (inductive step of the walk)"),
+    Proof("Delete_shape", [("TraceState::Delete", 1)], enforce="TraceState_Delete", timeout=300,
+          desc="Delete for ANY number of members: allocation size, exactly the given key is left out (inductive step of the walk)"),
+]
+for _p in proofs_cap:
+    _p.pre_c = CAP_PRE
+    _p.post_struct_c = CAP_POST
+    _p.spec_headers = ()
+    _p.force_records = ("nostd::string_view",)
+    _p.configure = _configure_cap
+    _p.own_config = True
+    _p.contracts = contracts_cap
+    refuters[_p.name] = refute_search
+proofs += proofs_cap
